@@ -92,12 +92,13 @@ def exec_case(pid, case):
     """run one case under the per-case alarm; classify harness exceptions apart from violations"""
     mod = prop_module(pid)
     old = signal.signal(signal.SIGALRM, _alarm)
-    signal.alarm(CASE_TIMEOUT_S)
+    timeout_s = int(getattr(mod, "CASE_TIMEOUT_S", CASE_TIMEOUT_S))
+    signal.alarm(timeout_s)
     try:
         res = mod.run_case(case)
     except CaseTimeout:
         fr = _innermost_repo_frame(sys.exc_info()[2])
-        res = {"status": "timeout", "reason": f"case exceeded {CASE_TIMEOUT_S}s at {fr}", "violations": [],
+        res = {"status": "timeout", "reason": f"case exceeded {timeout_s}s at {fr}", "violations": [],
                "timeout_at": fr}
         hook = getattr(mod, "on_timeout", None)
         if hook is not None:
@@ -322,7 +323,12 @@ def run_check(pid, tier="quick", seed=0, n=None, budget_s=None, workers=None, wr
         hits = viol_by_sig[sig]
         k = match_known(known, pid, sig)
         if k is not None:
-            known_hits.append((k, len(hits)))
+            for j, (kk, c) in enumerate(known_hits):
+                if kk is k:
+                    known_hits[j] = (kk, c + len(hits))
+                    break
+            else:
+                known_hits.append((k, len(hits)))
             continue
         r, v = hits[0]
         case = r["case"]
